@@ -161,7 +161,16 @@ impl Property for C26 {
         if check(&c0).map(|v| v.class).as_deref() == Some(class) {
             start = c0;
         }
-        let (min, steps) = super::execmin::minimise(&start, class, &|c| check(c).map(|v| v.class));
+        let (mut min, steps) = super::execmin::minimise(&start, class, &|c| check(c).map(|v| v.class));
+        // keep only the world outcomes the minimised case still consults
+        if let Ok(p) = exec::parse(&min) {
+            let out = exec::check_c26(&min, &p, false);
+            let mut pruned = min.clone();
+            pruned.overrides.retain(|k, _| out.consulted.contains_key(k));
+            if check(&pruned).map(|v| v.class).as_deref() == Some(class) {
+                min = pruned;
+            }
+        }
         (min.to_json(), steps + 1)
     }
 
